@@ -343,7 +343,13 @@ def build_program(rs):
             for a in c["base_resets"]:
                 if (n, a) not in CTX.snap_attrs:
                     CTX.snap_attrs.append((n, a))
-            bases = (type(f"Base_{n}", bases, bns),)
+            if c.get("diamond") and bases == (object,):
+                # diamond: the common ancestor declares the markers with other defaults, the base listed SECOND declares
+                # them again (the defaults of the case); Python's MRO - Comp, Left, Right, Ancestor - makes Right's count
+                anc = type(f"Anc_{n}", (object,), {a: will_reset_to(RESET_VALUES[(RESET_VALUES.index(d) + 2) % 5] if d in RESET_VALUES else 0) for a, d in c["base_resets"].items()})
+                bases = (type(f"Left_{n}", (anc,), {}), type(f"Right_{n}", (anc,), bns))
+            else:
+                bases = (type(f"Base_{n}", bases, bns),)
         comp_classes[n] = type(f"Comp_{n}", bases, ns)
         order.append(n)
 
@@ -876,6 +882,8 @@ def decode_robot(code):
             c["resets"]["b0"] = RESET_VALUES[(rv + 3) % 5]  # the derived class declares the inherited marker again
         elif nbres and rv == 4:
             c["shadow"] = {"b0": 77}  # ... or hides it behind a plain attribute
+        if nbres and flags % 3 == 1 and not c.get("sm") and not c.get("fb_on_base") and not c.get("fb_overridden"):
+            c["diamond"] = True
         c["plain"] = {f"p{j}": 100 + i for j in range(nplain)}
         used = {"m": set(), "k": set()}
         c["fbs"] = [fb for fb in (decode_fb(x, used) for x in fbs_c) if fb]
